@@ -66,15 +66,47 @@ def data_burst(info196, dt, cc, sync="BsSourcedData"):
     return (info196[:98] + st[:10] + SyncPatterns[sync].as_bits() + st[10:] + info196[98:]).tobytes()
 
 
+LC_FLCOS = ["GroupVoiceChannelUser", "UnitToUnitVoiceChannelUser", "TalkerAliasHeader", "TalkerAliasBlock1", "TalkerAliasBlock2", "TalkerAliasBlock3",
+            "GPSInfo"]  # every opcode FullLinkControl.from_bits implements (TerminatorDataLinkControl is not: such a burst is not parseable)
+LC_FIDS = [0x00, 0x00, 0x00, 0x00, 0x10, 0x68, 0x08, 0x04, 0x80]  # standard, Motorola, Hytera (two ids), Flyde, reserved-for-MFID
+
+
 def lc_burst(r, dt, cc, src=None, dst=None):
-    flco = r.choice([FLCOs.GroupVoiceChannelUser, FLCOs.UnitToUnitVoiceChannelUser])
-    body = (bitarray([0, 0]) + flco.as_bits() + int2ba(0, 8) + int2ba(r.getrandbits(8) & 0b11110011, 8)
-            + int2ba(dst if dst is not None else r.getrandbits(24), 24) + int2ba(src if src is not None else r.getrandbits(24), 24))
+    """full link control burst (voice LC header / terminator with LC).  Opcode pool: the protocol's whole FLCO list (group and
+    unit-to-unit voice in 60 %, else any opcode the element defines: talker alias header / blocks, GPS info, terminator data LC),
+    protect flag and feature set id varied; the 56 information bits of the non-addressing opcodes are arbitrary"""
+    x = r.random()
+    flco = r.choice([FLCOs.GroupVoiceChannelUser, FLCOs.UnitToUnitVoiceChannelUser]) if x < 0.6 else FLCOs[r.choice(LC_FLCOS)]
+    fid = r.choice(LC_FIDS)
+    pf = 1 if r.random() < 0.1 else 0
+    if flco in (FLCOs.GroupVoiceChannelUser, FLCOs.UnitToUnitVoiceChannelUser):
+        rest = (int2ba(r.getrandbits(8) & 0b11110011, 8) + int2ba(dst if dst is not None else r.getrandbits(24), 24)
+                + int2ba(src if src is not None else r.getrandbits(24), 24))
+    else:
+        rest = int2ba(r.getrandbits(56), 56)
+    body = bitarray([pf, 0]) + flco.as_bits() + int2ba(fid, 8) + rest
     mask = (CrcMasks.VoiceLCHeader if dt == DataTypes.VoiceLCHeader else CrcMasks.TerminatorWithLC).value.to_bytes(3, "big")
     full = ReedSolomon1294.generate(body.tobytes(), mask)
     b = bitarray()
     b.frombytes(full)
     return data_burst(BPTC19696.encode(b), dt, cc, r.choice(DATA_SYNCS))
+
+
+def other_burst(r, cc):
+    """a burst of one of the data types the alphabet of the property does not name but a receiver meets all the same: PI header, idle,
+    MBC header / continuation, unified single block, reserved; 96 arbitrary information bits (a PI header that does not parse is simply not a
+    parseable burst and is skipped by the receiver side of the harness)"""
+    dt = r.choice([DataTypes.PIHeader, DataTypes.Idle, DataTypes.Idle, DataTypes.MBCHeader, DataTypes.MBCContinuation, DataTypes.UnifiedSingleBlockData,
+                   DataTypes.Reserved])
+    info = int2ba(r.getrandbits(96), 96)
+    if dt == DataTypes.PIHeader and r.random() < 0.8:
+        try:
+            from okdmr.dmrlib.etsi.layer2.pdu.pi_header import PIHeader
+
+            info = PIHeader.from_bits(info[:80] + bitarray([0] * 16)).as_bits()
+        except Exception:
+            pass
+    return data_burst(BPTC19696.encode(info), dt, cc, r.choice(DATA_SYNCS))
 
 
 def voice_burst(r, sync=None, cc=1, lcss=0, pi=0):
@@ -125,12 +157,27 @@ def hdr_burst(r, cc, **kw):
     return data_burst(BPTC19696.encode(h.as_bits()), DataTypes.DataHeader, cc, r.choice(DATA_SYNCS))
 
 
+OTHER_CSBKOS = ["BSOutboundActivation", "HyteraIPSCSync", "UnitToUnitVoiceServiceRequest", "UnitToUnitVoiceServiceAnswerResponse", "ChannelTimingCSBK",
+                "AlohaPDUsForRandomAccessProtocol", "AnnouncementPDUsWithoutResponse"]  # the opcodes CSBK.from_bits implements besides the preamble
+
+
 def csbk_burst(r, cc, pre=True, btf=None):
     if pre:
         c = CSBK(csbko=CsbkOpcodes.PreambleCSBK, blocks_to_follow=r.choice([0, 1, 2, 3, 4, 255]) if btf is None else btf,
                  source_address=r.getrandbits(24), target_address=r.getrandbits(24), target_address_is_individual=r.random() < 0.5)
     else:
-        c = CSBK(csbko=CsbkOpcodes.BSOutboundActivation, bs_address=r.getrandbits(24), source_address=r.getrandbits(24))
+        c = None
+        if r.random() < 0.6:
+            # any other opcode the parser implements, arbitrary 64 information bits, check field generated by the library
+            op = CsbkOpcodes[r.choice(OTHER_CSBKOS)]
+            raw = bitarray([1, 0]) + int2ba(op.value, 6) + int2ba(r.choice([0, 0, 0x68, 0x10]), 8) + int2ba(r.getrandbits(64), 64)
+            try:
+                c = CSBK.from_bits(raw + bitarray([0] * 16))
+                c.as_bits()
+            except Exception:
+                c = None  # values this opcode does not define: not a parseable burst, take the plain one
+        if c is None:
+            c = CSBK(csbko=CsbkOpcodes.BSOutboundActivation, bs_address=r.getrandbits(24), source_address=r.getrandbits(24))
     return data_burst(BPTC19696.encode(c.as_bits()), DataTypes.CSBK, cc, r.choice(DATA_SYNCS))
 
 
